@@ -888,10 +888,16 @@ func runConc(cfg config) {
 			seqs := cr.seqs(p)
 			if e.s.Deadlock {
 				cr.note("deadlock", p, e, nil)
+			} else if strings.Contains(e.resultsText(), "panic") {
+				cr.note("panic", p, e, nil)
 			} else if linearization(e, seqs) == nil {
 				cr.note("nonlin", p, e, seqs)
 			}
-			o.emit(p.caseLine(e.initial, sc), e.observed(), "")
+			if p.fsname == "memfs" {
+				o.emit(p.caseLine(e.initial, sc), e.observed(), "")
+			} else {
+				o.emit(p.caseLine(e.initial, sc), "unmodelled", "") // OrefaFS has no Coq machine: explored and judged by the oracle only
+			}
 		}
 		cr.finish(cfg)
 		return
